@@ -10,6 +10,7 @@ import (
 	"github.com/feichai0017/NoKV/pd/core"
 	pdstorage "github.com/feichai0017/NoKV/pd/storage"
 	"github.com/feichai0017/NoKV/pd/tso"
+	"github.com/feichai0017/NoKV/utils/verifhook"
 	"google.golang.org/grpc/codes"
 	"google.golang.org/grpc/status"
 )
@@ -148,6 +149,7 @@ func (s *Service) AllocID(_ context.Context, req *pb.AllocIDRequest) (*pb.AllocI
 	if count == 0 {
 		count = 1
 	}
+	verifhook.Yield("pd.Service.AllocID.reserve")
 	first, _, err := s.ids.Reserve(count)
 	if err != nil {
 		if errors.Is(err, core.ErrInvalidBatch) {
@@ -173,6 +175,7 @@ func (s *Service) Tso(_ context.Context, req *pb.TsoRequest) (*pb.TsoResponse, e
 	if count == 0 {
 		count = 1
 	}
+	verifhook.Yield("pd.Service.Tso.reserve")
 	first, got, err := s.tso.Reserve(count)
 	if err != nil {
 		if errors.Is(err, core.ErrInvalidBatch) {
@@ -195,10 +198,14 @@ func (s *Service) persistAllocatorState() error {
 	}
 	// Without the mutex a request that read older counters can overwrite a newer
 	// checkpoint; a restart would then hand out values that were already returned.
+	verifhook.Yield("pd.Service.persist.lock")
 	s.persistMu.Lock()
 	defer s.persistMu.Unlock()
+	verifhook.Yield("pd.Service.persist.load_id")
 	idCurrent := s.ids.Current()
+	verifhook.Yield("pd.Service.persist.load_ts")
 	tsCurrent := s.tso.Current()
+	verifhook.Yield("pd.Service.persist.save")
 	return s.storage.SaveAllocatorState(idCurrent, tsCurrent)
 }
 
